@@ -1,8 +1,11 @@
+import ScadVerif.Driver.C09
+import ScadVerif.Driver.C10
 import ScadVerif.Driver.C11
+import ScadVerif.Driver.C12
 open ScadVerif.Driver
 
 def allHandlers : List (String × List (String × Handler)) :=
-  [("C11", C11.handlers)]
+  [("C09", C09.handlers), ("C10", C10.handlers), ("C11", C11.handlers), ("C12", C12.handlers)]
 
 def processLine (hs : List (String × Handler)) (line : String) : String :=
   let parts := line.splitOn "\t"
@@ -16,7 +19,7 @@ def processLine (hs : List (String × Handler)) (line : String) : String :=
     | some (_, h) =>
       match h args (parseGroups impl) with
       | .ok (model, fails) =>
-        model.render ++ "\t" ++ (if fails.isEmpty then "PASS" else " ".intercalate (fails.map ("FAIL:" ++ ·)))
+        model.render ++ "\t" ++ (if fails.isEmpty then "PASS" else " ".intercalate (fails.map fun f => if f.startsWith "SKIP" then f else "FAIL:" ++ f))
       | .error e => "ERROR " ++ (e.replace "\t" " ") ++ "\t"
 
 partial def loop (hin : IO.FS.Stream) (hout : IO.FS.Stream) (hs : List (String × Handler)) : IO Unit := do
